@@ -200,7 +200,7 @@ func genHistRandom(c *Ctx, which string) {
 		if c.rng.Intn(5) == 0 {
 			// CSP-compatible sets: javascript: URIs and event handlers in the text become analysis errors
 			hb.add(Step{Op: "csp", H: 0})
-			bodies = append(append([]string{}, memberBodies...), cspBodies...)
+			bodies = append(append([]string{}, memberBodies[:8]...), cspBodies...)
 		}
 		if which == "C08" || (which == "" && c.rng.Intn(4) == 0) {
 			bodies = append(append([]string{}, memberBodies...), nodeKindBodies...)
